@@ -207,15 +207,8 @@ class HPAngle(object):
         :param hp_angle: float HP angle
         """
         self.hp_angle = float(hp_angle)
-        hp_dec_str = f'{self.hp_angle:.17f}'.split('.')[1]
-        if int(hp_dec_str[0]) > 5:
-            raise ValueError(f'Invalid HP Notation: 1st decimal place greater '
-                             f'than 5: {self.hp_angle}')
-        if len(hp_dec_str) > 2:
-            if int(hp_dec_str[2]) > 5:
-                raise ValueError(
-                    f'Invalid HP Notation: 3rd decimal place greater '
-                    f'than 5: {self.hp_angle}')
+        # validate minutes and seconds exactly as hp2dec reads them
+        hp2dec(self.hp_angle)
 
     def __repr__(self):
         if self.hp_angle >= 0:
